@@ -53,8 +53,10 @@ def random_rt(rng: random.Random) -> dict:
         when = t if mode < 0.4 else max(0, t - rng.randint(1, 60)) if mode < 0.8 else t + rng.randint(10, 120)
         arrivals.append({"id": i + 1, "src": rng.randint(1, ns), "arrive": t, "when": when})
     hs = [[{"dur": rng.choice([0, 5, 30]), "raise": rng.random() < 0.15} for _ in range(rng.randint(1, 2))] for _ in range(ns)]
-    jobs = [{"id": k + 1, "when": rng.randint(0, 250), "dur": rng.choice([0, 10, 40]), "raise": rng.random() < 0.2}
-            for k in range(rng.choice([0, 1, 2, 3]))]
+    # scheduled in list order: near and far-future times interleaved in any order (the scheduler's heap must cope)
+    jobs = [{"id": k + 1, "when": rng.randint(0, 250) if rng.random() < 0.65 else rng.randint(20000, 90000),
+             "dur": rng.choice([0, 10, 40]), "raise": rng.random() < 0.2}
+            for k in range(rng.choice([0, 1, 2, 3, 6, 9]))]
     idle = [rng.choice([20, 35]) for _ in range(rng.choice([0, 0, 1, 2]))]
     return {"ns": ns, "arrivals": arrivals, "hs": hs, "jobs": jobs, "idle": idle, "maxc": rng.choice([1, 1, 2, 3, 50]),
             "stop_at": 700}
@@ -92,10 +94,15 @@ def check(rep: Report, tier: str, seed: int, prop: str = None):
     with tlc.scratch() as wd:
         # ---- MC -----------------------------------------------------------------------------------------------
         if prop == "C14":
-            res = tlc.run("RunLifecycle", tlc.cfg_text({"NP": 2, "FixLogMode": True}, invariants=LIFE_INVS), workdir=wd)
+            res = tlc.run("RunLifecycle", tlc.cfg_text({"NP": 2, "FixLogMode": True, "GuardEach": True}, invariants=LIFE_INVS), workdir=wd)
             rep.add_tlc("RunLifecycle/MC", res, {"NP": 2}, "every exit path x producer faults x both dispatchers x interleavings of producer tasks")
             if not res.ok:
                 rep.violation(Violation("C14", res.violated, "mc", {"trace": (res.counterexample or [])[-2:]}, discriminator="model:lifecycle"))
+            bad = tlc.run("RunLifecycle", tlc.cfg_text({"NP": 2, "FixLogMode": True, "GuardEach": False}, invariants=LIFE_INVS), workdir=wd,
+                          dump_trace=False)
+            if bad.ok:
+                raise tlc.MachineryError("must-fail config (one guard around all finalizers) was accepted")
+            rep.extra["must_fail_lifecycle"] = {"GuardEach": False, "violated": bad.violated}
         for consts in ([dict(MaxC=1, NJobs=1, NEvents=2, NIdle=0, MaxNow=4, FixPool=True), dict(MaxC=2, NJobs=2, NEvents=2, NIdle=2, MaxNow=3, FixPool=True)]
                        + ([] if quick else [dict(MaxC=1, NJobs=2, NEvents=3, NIdle=2, MaxNow=4, FixPool=True)])):
             res = tlc.run("RtDispatcher", tlc.cfg_text(consts, invariants=RT_INVS), workdir=wd, timeout=1500)
